@@ -52,7 +52,7 @@ fn chain_model_with(coefs: Vec<f64>) -> BoxedStrategy<ModelCase> {
     ];
     (
         proptest::collection::vec(dom, 2..=5),
-        proptest::collection::vec((0usize..5, 0usize..5, coef.clone(), coef, -12i32..=12, 0u8..3, 0u8..6), 1..=7),
+        proptest::collection::vec((0usize..5, 0usize..5, coef.clone(), coef, -12i32..=12, prop_oneof![8 => 0u8..3, 2 => 3u8..5], 0u8..6), 1..=7),
         any::<u64>(),
         // feasibility bias: a witness point; two thirds of the models are made to hold at it
         (proptest::collection::vec(-6i32..=6, 5), 0u8..3),
@@ -77,10 +77,14 @@ fn chain_model_with(coefs: Vec<f64>) -> BoxedStrategy<ModelCase> {
                 .map(|(a, b, ca, cb, k, rel, form)| {
                     let va = SExp::var(&vars[a % n].0);
                     let vb = SExp::var(&vars[b % n].0);
+                    // strict rows are read strictly by the oracle (their feasible set is inside the one of
+                    // the closed row, so every range that is sound for the closed row is sound here)
                     let rel = match rel {
                         0 => Cmp::Le,
                         1 => Cmp::Ge,
-                        _ => Cmp::Eq,
+                        2 => Cmp::Eq,
+                        3 => Cmp::Lt,
+                        _ => Cmp::Gt,
                     };
                     // value of the left-hand side minus the non-constant part of the right-hand side
                     // at the witness, for the forms whose constant can simply be moved
@@ -98,8 +102,8 @@ fn chain_model_with(coefs: Vec<f64>) -> BoxedStrategy<ModelCase> {
                             let slack = (k.abs() % 4) as f64 / 2.0;
                             let v = (v * 4.0).round() / 4.0;
                             match rel {
-                                Cmp::Le => v + slack + 0.25,
-                                Cmp::Ge => v - slack - 0.25,
+                                Cmp::Le | Cmp::Lt => v + slack + 0.25,
+                                Cmp::Ge | Cmp::Gt => v - slack - 0.25,
                                 Cmp::Eq => k as f64 / 2.0,
                             }
                         }
@@ -198,7 +202,7 @@ impl Prop for C07 {
         serde_json::to_string(&format!("{} || probes {:?}", c.model.text(), c.probes.iter().map(crate::gen::text::print_min).collect::<Vec<_>>())).unwrap()
     }
     fn rule(&self) -> String {
-        "C01 models plus propagation-specific models (chains and cycles a*x rel b*y + k over 2-5 variables with coefficients 1,2,3,7,0.1,1.9,1/3 and negative ones, and the same shapes with coefficients from 1e-9 to 1e9 (ill-conditioned propagation), |x-y| and max/min/division links, infinite and integer declared ranges, Boolean variables, contradictory rows, and the slow two-variable cycle x >= y + d, y >= x + d in boxes up to 1e5 wide that exhausts the 10000-step limit). (1) at every source-feasible point of the test set every interval returned by the analysis hook and every published domain of the compiled model contains the variable's value; (2) for generated probe expressions and points of the derived box (the test points that lie inside it) the derived enclosure contains the exact value, is never NaN and has lower <= upper; (3) the same holds when the step limit was reached or a contradiction was detected. Non-trivial = some derived interval strictly tighter than declared and a feasible point within 1/16 of a derived bound, or the step-limit / contradiction flag set. Distinct = distinct model text.".into()
+        "C01 models plus propagation-specific models (chains and cycles a*x rel b*y + k over 2-5 variables with coefficients 1,2,3,7,0.1,1.9,1/3 and negative ones, and the same shapes with coefficients from 1e-9 to 1e9 (ill-conditioned propagation), |x-y| and max/min/division links, infinite and integer declared ranges, Boolean variables, strict rows (< and >, read strictly), contradictory rows, and the slow two-variable cycle x >= y + d, y >= x + d in boxes up to 1e5 wide that exhausts the 10000-step limit). (1) at every source-feasible point of the test set every interval returned by the analysis hook and every published domain of the compiled model contains the variable's value; (2) for generated probe expressions and points of the derived box (the test points that lie inside it) the derived enclosure contains the exact value, is never NaN and has lower <= upper; (3) the same holds when the step limit was reached or a contradiction was detected. Non-trivial = some derived interval strictly tighter than declared and a feasible point within 1/16 of a derived bound, or the step-limit / contradiction flag set. Distinct = distinct model text.".into()
     }
     fn assumptions(&self) -> Vec<String> {
         vec!["containment is checked with a 1e-11 relative allowance (stated weakening of the literal 'contains': rooc folds constants in rounded f64 before the analysis, which moves bounds by units in the last place)".into()]
